@@ -54,7 +54,7 @@ struct Obs {
 }
 
 fn observe(cfg: &TreeCfg, chunks_: &[String]) -> Obs {
-    let mut sink = ModelDom::new();
+    let mut sink = ModelDom::for_cfg(cfg);
     sink.record_events = true;
     let labels = RefCell::new(vec![]);
     let connected = RefCell::new(vec![]);
@@ -74,6 +74,7 @@ fn observe(cfg: &TreeCfg, chunks_: &[String]) -> Obs {
                 None => false,
                 Some(m) => {
                     let nodes = dom.nodes.borrow();
+                    let shadow = dom.shadow_hosts.borrow();
                     let mut cur = Some(m);
                     let mut ok = false;
                     while let Some(c) = cur {
@@ -81,7 +82,11 @@ fn observe(cfg: &TreeCfg, chunks_: &[String]) -> Obs {
                             ok = true;
                             break;
                         }
-                        cur = nodes[c].parent.or(nodes[c].host);
+                        // a template-contents fragment continues with its template element, or -
+                        // when it was attached as a declarative shadow root - with its host
+                        cur = nodes[c].parent.or_else(|| {
+                            nodes[c].host.map(|t| shadow.iter().find(|(_, tmpl)| *tmpl == t).map(|(h, _)| *h).unwrap_or(t))
+                        });
                     }
                     ok && nodes[m].parent.is_some()
                 },
